@@ -435,7 +435,8 @@ func c16RunWire(b core.Batch, r *core.Recorder) {
 				if rng.IntN(6) == 0 {
 					hdrs = append(hdrs, "Connection: close, X-Verif-Resp")
 				}
-				hostHdr := []string{"Host: " + host, "Host: " + host, "Host: ", "Host: other.invalid", "", "Host: " + host + "\r\nHost: dup"}[rng.IntN(6)]
+				hostHdr := []string{"Host: " + host, "Host: " + host, "Host: " + host, "Host: ", "Host: other.invalid", "", "Host: " + host + "\r\nHost: dup",
+					"Host: example.com:abc", "Host: example.com:80:80", "Host: %zz", "Host: [::1", "Host: h:99999", "Host: [::1]:x"}[rng.IntN(13)]
 				var raw bytes.Buffer
 				fmt.Fprintf(&raw, "%s %s HTTP/1.%d\r\n", method, target, rng.IntN(2))
 				if hostHdr != "" {
